@@ -51,7 +51,10 @@ fn main() {
                 } else {
                     String::new()
                 };
-                let call = if flags.contains("macro") {
+                let call = if flags.contains("typesonly") {
+                    // compile-only member (C03): its types may lack Debug, nothing is run
+                    String::from("String::new()")
+                } else if flags.contains("macro") {
                     // the same grammar through the peginate! macro: outcomes must be identical
                     format!(
                         "{{ let a = verif_common::run_plain::<grammar::{root}>(gid, input, ind); \
@@ -78,7 +81,9 @@ fn main() {
                          pub fn run(gid: &str, input: &str, ind: bool) -> String {{ {call} }}\n\
                      }}"
                 );
-                let _ = writeln!(table, "    (\"{id}\", g_{id}::run as verif_common::CaseFn),");
+                if !flags.contains("typesonly") {
+                    let _ = writeln!(table, "    (\"{id}\", g_{id}::run as verif_common::CaseFn),");
+                }
             }
         }
     }
